@@ -1207,6 +1207,39 @@ func (t *c41tTree) ruleP2bc(db *packages.Package) {
 			}
 		}
 	}
+	// helpers: unexported methods all of whose call sites are inside methods of the same tree type (an extracted part of a
+	// set operation). They are not instances of their own; what they use is credited to their callers through the use closure.
+	callers := map[*types.Func]map[*c41tNode]int{} // callee -> node of the calling method's receiver (nil: other) -> count
+	c.P.EachModuleFuncDecl(func(pk *packages.Package, cfd *ast.FuncDecl) {
+		var from *c41tNode
+		if fn, _ := pk.TypesInfo.Defs[cfd.Name].(*types.Func); fn != nil {
+			if sig := fn.Type().(*types.Signature); sig.Recv() != nil {
+				from = t.byObj[c41tNamedObj(sig.Recv().Type())]
+			}
+		}
+		ast.Inspect(cfd.Body, func(x ast.Node) bool {
+			if call, ok := x.(*ast.CallExpr); ok {
+				if cal := Callee(pk.TypesInfo, call); cal != nil {
+					if callers[cal.Origin()] == nil {
+						callers[cal.Origin()] = map[*c41tNode]int{}
+					}
+					callers[cal.Origin()][from]++
+				}
+			}
+			return true
+		})
+	})
+	isHelper := func(m *types.Func, n *c41tNode) bool {
+		if m.Exported() || len(callers[m]) == 0 {
+			return false
+		}
+		for from := range callers[m] {
+			if from != n {
+				return false
+			}
+		}
+		return true
+	}
 	for _, n := range t.nodes {
 		for _, m := range t.declaredMethods(n) {
 			fd := c.P.Decl(m)
@@ -1215,6 +1248,8 @@ func (t *c41tTree) ruleP2bc(db *packages.Package) {
 			}
 			sig := m.Type().(*types.Signature)
 			switch {
+			case sig.Params().Len() == 1 && !sig.Variadic() && t.nodeOf(sig.Params().At(0).Type()) == n && isHelper(m, n):
+				c.Note("C41-P2b", "helper/"+n.name+"."+m.Name(), fd.Pos(), "unexported and only called from methods of "+n.name+": part of a set operation, credited to its callers")
 			case sig.Params().Len() == 1 && !sig.Variadic() && t.nodeOf(sig.Params().At(0).Type()) == n:
 				ru, pu := t.usesInFunc(m, -1), t.usesInFunc(m, 0)
 				for _, f := range n.coll {
